@@ -86,6 +86,11 @@ func SwarmConfig(p *PRNG, o SwarmOpts) Config {
 	c.SlashDowntime = []string{"0", "0.01", "0.1", "0.5", "1"}[p.Intn(5)]
 	c.SlashDoubleSign = []string{"0", "0.05", "0.3", "0.99", "1"}[p.Intn(5)]
 	c.OracleMaxNonce = int32(p.Range(1, 4))
+	for i := range c.Assets {
+		if c.Assets[i].Interval < 2*uint64(c.OracleMaxNonce) {
+			c.Assets[i].Interval = 2 * uint64(c.OracleMaxNonce)
+		}
+	}
 	c.MaxSizePrices = int32([]int{3, 5, 100}[p.Intn(3)])
 	c.MintEpoch = []string{"dfe", "minute"}[p.Intn(2)]
 	c.MintReward = []string{"0", "1", "1000000000000000000", "123456789012345678901"}[p.Intn(4)]
